@@ -123,6 +123,9 @@ def run(ctx):
     # ---- R6 ----------------------------------------------------------------------
     _own_instance_hooks_read_only(ctx)
 
+    # ---- R7 ----------------------------------------------------------------------
+    _sign_table_names(ctx)
+
     # ---- R3 ----------------------------------------------------------------------
     ctx.rule('C10.R3', 'mapping values are read through a key obtained from the mapping itself '
              '(x[next(iter(x))] / next(iter(x.values()))): no lookup with a fresh key that could insert into a '
@@ -218,3 +221,41 @@ def _own_instance_hooks_read_only(ctx):
                (x[1].where(x[0]) if x else m.where(fn)), 'the instance-check hook only reads its subject', not uses,
                '; '.join(f'{u[1].where(u[0])}: {u[2]}' for u in uses[:3]))
     ctx.floor('C10.R6', n, 5, "__instancecheck__ hooks of beartype's own metaclasses")
+
+
+#: literal entries of the repr-prefix → sign tables whose sign is not named like the last component of the prefix (one reason each)
+SIGN_NAME_EXCEPTIONS = {
+    ('collections.abc.Set', 'HintSignAbstractSet'): 'the ABC is called Set, its typing alias (and the sign) AbstractSet',
+    ('contextlib.AbstractContextManager', 'HintSignContextManager'): 'typing.ContextManager aliases contextlib.AbstractContextManager',
+    ('contextlib.AbstractAsyncContextManager', 'HintSignAsyncContextManager'): 'typing.AsyncContextManager aliases contextlib.AbstractAsyncContextManager',
+    ('numpy.ndarray', 'HintSignNumpyArray'): 'third-party array type',
+    ("<class 'typing.IO'>", 'HintSignPep484585GenericUnsubbed'): 'the unsubscripted IO generic is checked as a generic',
+}
+
+
+def _sign_table_names(ctx):
+    """R7: which production a hint gets is decided by the sign its repr() prefix is mapped to; a one-shot iterator spelled
+    collections.abc.Iterator[T] mapped to the sign of a re-iterable family would be iterated by the check."""
+    import re
+    Q = 'beartype._data.hint.datahintrepr'
+    m = ctx.repo.mod(Q)
+    ctx.rule('C10.R7', 'the sign-detection tables (repr() prefix → sign) name the same thing on both sides: every literal entry '
+             "'module.Name': HintSignX of beartype._data.hint.datahintrepr has X == Name (case-insensitively) or is one of the "
+             'reviewed aliases (table, one reason each) — an entry such as collections.abc.Iterator → HintSignIterable hands a '
+             'one-shot iterator to a production that reads items (deviance among the entries of one table)')
+    n = 0
+    for a in ast.walk(m.tree):
+        if not isinstance(a, (ast.Assign, ast.AnnAssign)) or not isinstance(getattr(a, 'value', None), ast.Dict):
+            continue
+        tg = a.targets[0] if isinstance(a, ast.Assign) else a.target
+        if not (isinstance(tg, ast.Name) and 'TO_SIGN' in tg.id):
+            continue
+        for k, v in zip(a.value.keys, a.value.values):
+            if not (isinstance(k, ast.Constant) and isinstance(k.value, str) and isinstance(v, ast.Name) and v.id.startswith('HintSign')):
+                continue
+            n += 1
+            base = re.sub(r"[<>' ]|class", '', k.value).rsplit('.', 1)[-1]
+            ok = base.lower() == v.id[len('HintSign'):].lower() or (k.value, v.id) in SIGN_NAME_EXCEPTIONS
+            ctx.ob('C10.R7', f'sign-table:{tg.id}:{k.value}', m.where(k), 'the prefix is mapped to the sign of the same name', ok,
+                   f'{k.value!r} is mapped to {v.id}')
+    ctx.floor('C10.R7', n, 30, 'literal entries of the sign-detection tables')
